@@ -62,11 +62,19 @@ func structBases() (map[string][]int, []int) {
 			}
 		}
 		sort.Ints(famBases["smime-subject"])
+		for _, ln := range []string{"w_distribution_point_missing_ldap_or_uri", "e_distribution_point_incomplete", "e_sub_cert_crl_distribution_points_does_not_contain_url"} {
+			for _, i := range hm[ln] {
+				if homeClass[ln][i] >= 1 {
+					famBases["cdp"] = append(famBases["cdp"], i)
+				}
+			}
+		}
+		sort.Ints(famBases["cdp"])
 	})
 	return famBases, tlsBases
 }
 
-var structFamilies = []string{"rfc-br-dns", "san-ian", "subject-issuer", "aia", "validity", "name-length", "onion", "rsa-key", "smime-subject"}
+var structFamilies = []string{"rfc-br-dns", "san-ian", "subject-issuer", "aia", "validity", "name-length", "onion", "rsa-key", "smime-subject", "cdp"}
 
 var latestEffective = time.Date(2024, 6, 1, 0, 0, 0, 0, time.UTC) // after every pair member's effective date
 
@@ -233,6 +241,54 @@ func drawStructured(rt *rapid.T, fam string) (structCert, bool) {
 			v.SetPolicies([]int{2, 23, 140, 1, 1})
 			desc = append(desc, "policy:EV")
 		}
+	case "cdp":
+		// cRLDistributionPoints from its grammar: 1-3 DistributionPoints, each with any subset of
+		// distributionPoint (fullName of URIs / directoryName, or nameRelativeToCRLIssuer), reasons and cRLIssuer
+		// (directoryName equal to this certificate's issuer, to its subject, to neither; a URI)
+		own := func(n *dt.Node) *dt.Node { return gen.GNDirName(n.Clone()) }
+		var dps []*dt.Node
+		for i, n := 0, rapid.IntRange(1, 3).Draw(rt, "ndp"); i < n; i++ {
+			var fields []*dt.Node
+			d := ""
+			switch rapid.IntRange(0, 5).Draw(rt, "dpname") {
+			case 0:
+				d += "no-name "
+			case 1, 2:
+				u, _ := gen.DrawURI(rt)
+				fields = append(fields, dt.Cons(2, 0, dt.Cons(2, 0, gen.GNURI([]byte(u)))))
+				d += "fullName=" + u + " "
+			case 3:
+				fields = append(fields, dt.Cons(2, 0, dt.Cons(2, 0, gen.GNURI([]byte("ldap://ldap.example.com/cn=crl")), own(v.Issuer()))))
+				d += "fullName=ldap+issuerDN "
+			case 4:
+				fields = append(fields, dt.Cons(2, 0, dt.Cons(2, 1, gen.ATV(gen.OIDCN, 12, []byte("crl1")))))
+				d += "relativeName "
+			default:
+				fields = append(fields, dt.Cons(2, 0, dt.Cons(2, 0)))
+				d += "fullName=empty "
+			}
+			if rapid.IntRange(0, 3).Draw(rt, "reasons") == 0 {
+				fields = append(fields, dt.Prim(2, 1, rapid.SampledFrom([][]byte{{0x01, 0x7e}, {0x07, 0x80}, {0x00}, {}}).Draw(rt, "rbits")))
+				d += "reasons "
+			}
+			switch rapid.IntRange(0, 5).Draw(rt, "crlissuer") {
+			case 0:
+				fields = append(fields, dt.Cons(2, 2, own(v.Issuer())))
+				d += "cRLIssuer=issuerDN"
+			case 1:
+				fields = append(fields, dt.Cons(2, 2, own(v.Subject())))
+				d += "cRLIssuer=subjectDN"
+			case 2:
+				fields = append(fields, dt.Cons(2, 2, gen.GNDirName(gen.RDNSeq([]*dt.Node{gen.ATV(gen.OIDCN, 12, []byte("Indirect CRL Issuer"))}))))
+				d += "cRLIssuer=otherDN"
+			case 3:
+				fields = append(fields, dt.Cons(2, 2, gen.GNURI([]byte("http://crl.example.com/")), own(v.Issuer())))
+				d += "cRLIssuer=uri+issuerDN"
+			}
+			dps = append(dps, dt.Seq(fields...))
+			desc = append(desc, d)
+		}
+		v.SetExt([]int{2, 5, 29, 31}, rapid.IntRange(0, 5).Draw(rt, "critical") == 0, dt.Seq(dps...))
 	case "smime-subject":
 		// a subject that repeats attribute types - several commonNames, several emailAddresses, mailbox and
 		// non-mailbox values in either order - on an S/MIME certificate, and a SAN that names some of them
